@@ -7,11 +7,29 @@ mod pipe;
 mod sched;
 mod seq;
 
+#[cfg(feature = "tracing")]
+fn install_subscriber() {
+    let _ = tracing_subscriber::fmt().with_max_level(tracing::Level::TRACE).with_writer(std::io::sink).try_init();
+}
+#[cfg(not(feature = "tracing"))]
+fn install_subscriber() {
+    eprintln!("warning: built without the `tracing` feature: no subscriber installed");
+}
+
 fn main() {
     std::panic::set_hook(Box::new(|_| {}));
     let args: Vec<String> = std::env::args().collect();
     match args.get(1).map(|s| s.as_str()) {
-        Some("replay") => seq::replay_stdin(),
+        Some("replay") => {
+            // `--subscriber`: install a `tracing` subscriber (tracing build only); `--calls`: append `#f=<n>`, the number of
+            // invocations of the user closure of `map` (its call sits inside a message expression of `call!`)
+            if args.iter().any(|a| a == "--subscriber") {
+                install_subscriber();
+            }
+            seq::DUAL.store(args.iter().any(|a| a == "--dual"), std::sync::atomic::Ordering::SeqCst);
+            seq::COUNT_CALLS.store(args.iter().any(|a| a == "--calls"), std::sync::atomic::Ordering::SeqCst);
+            seq::replay_stdin()
+        },
         Some("sched-all") => sched::sched_all(args.get(2).and_then(|s| s.parse().ok()).unwrap_or(usize::MAX)),
         Some("sched-run") => sched::sched_run(),
         Some("interval") => ivl::replay_stdin(),
